@@ -172,9 +172,32 @@ static void vx_finish(void)
 	if (f != stdout) fclose(f);
 }
 
+/* ------------------------------------------- the library's own static state
+ * Parts built with `lib=[...]` (bin/check) link the librfn sources as separate objects whose writable sections are
+ * renamed to vxlibdata / vxlibbss. Everything the library keeps in statics (file scope or function scope) then lies
+ * between the linker-provided bounds below and can be saved, restored, hashed and reset like the rest of the state: a
+ * hidden cache cannot leak from one explored branch, case or configuration into the next. Without `lib=` the regions
+ * are empty. */
+extern char __start_vxlibdata[] __attribute__((weak)), __stop_vxlibdata[] __attribute__((weak));
+extern char __start_vxlibbss[] __attribute__((weak)), __stop_vxlibbss[] __attribute__((weak));
+static size_t vx_lib_dsz(void) { return __start_vxlibdata ? (size_t)(__stop_vxlibdata - __start_vxlibdata) : 0; }
+static size_t vx_lib_bsz(void) { return __start_vxlibbss ? (size_t)(__stop_vxlibbss - __start_vxlibbss) : 0; }
+static size_t vx_lib_size(void) { return vx_lib_dsz() + vx_lib_bsz(); }
+static void vx_lib_save(void *dst) { if (vx_lib_dsz()) memcpy(dst, __start_vxlibdata, vx_lib_dsz()); if (vx_lib_bsz()) memcpy((char *)dst + vx_lib_dsz(), __start_vxlibbss, vx_lib_bsz()); }
+static void vx_lib_restore(const void *src) { if (vx_lib_dsz()) memcpy(__start_vxlibdata, src, vx_lib_dsz()); if (vx_lib_bsz()) memcpy(__start_vxlibbss, (const char *)src + vx_lib_dsz(), vx_lib_bsz()); }
+static void *vx_lib_pristine;	/* image at program start (taken by vx_init) */
+static void vx_lib_reset(void) { if (vx_lib_pristine) vx_lib_restore(vx_lib_pristine); }
+static int vx_lib_dirty(void)
+{
+	if (!vx_lib_pristine) return 0;
+	return (vx_lib_dsz() && memcmp(vx_lib_pristine, __start_vxlibdata, vx_lib_dsz())) ||
+	       (vx_lib_bsz() && memcmp((char *)vx_lib_pristine + vx_lib_dsz(), __start_vxlibbss, vx_lib_bsz()));
+}
+
 static void vx_init(int argc, char **argv)
 {
 	vx_args.t0 = vx_now();
+	if (vx_lib_size()) { vx_lib_pristine = malloc(vx_lib_size()); if (!vx_lib_pristine) _exit(3); vx_lib_save(vx_lib_pristine); }
 	for (int i = 1; i < argc; i++) {
 		if (!strcmp(argv[i], "--tier") && i + 1 < argc) vx_args.tier = argv[++i];
 		else if (!strcmp(argv[i], "--worker") && i + 1 < argc) {
@@ -274,11 +297,13 @@ static int vx_set_has(vx_set *s, vx_h128 k)
 	}
 }
 
+static void vx_lib_hash(vx_hasher *h) { if (vx_lib_dsz()) vx_h_bytes(h, __start_vxlibdata, vx_lib_dsz()); if (vx_lib_bsz()) vx_h_bytes(h, __start_vxlibbss, vx_lib_bsz()); }
+
 /* ------------------------------------------------- snapshot store for BFS */
 
 typedef struct {
 	uint8_t *data; size_t ssz; uint64_t n, cap;
-	uint32_t *parent; uint32_t *op; uint16_t *depth;
+	uint32_t *parent; uint32_t *op; uint32_t *depth;
 } vx_store;
 #define VX_NOPARENT 0xffffffffu
 
@@ -286,7 +311,7 @@ static void vx_store_init(vx_store *st, size_t ssz)
 {
 	memset(st, 0, sizeof(*st)); st->ssz = ssz; st->cap = 1024;
 	st->data = malloc(st->cap * ssz); st->parent = malloc(st->cap * 4);
-	st->op = malloc(st->cap * 4); st->depth = malloc(st->cap * 2);
+	st->op = malloc(st->cap * 4); st->depth = malloc(st->cap * 4);
 }
 static void vx_store_free(vx_store *st) { free(st->data); free(st->parent); free(st->op); free(st->depth); memset(st, 0, sizeof(*st)); }
 static uint64_t vx_store_add(vx_store *st, const void *state, uint32_t parent, uint32_t op, unsigned depth)
@@ -294,11 +319,11 @@ static uint64_t vx_store_add(vx_store *st, const void *state, uint32_t parent, u
 	if (st->n == st->cap) {
 		st->cap *= 2;
 		st->data = realloc(st->data, st->cap * st->ssz); st->parent = realloc(st->parent, st->cap * 4);
-		st->op = realloc(st->op, st->cap * 4); st->depth = realloc(st->depth, st->cap * 2);
+		st->op = realloc(st->op, st->cap * 4); st->depth = realloc(st->depth, st->cap * 4);
 		if (!st->data || !st->parent || !st->op || !st->depth) { fprintf(stderr, "vx: out of memory (store)\n"); _exit(3); }
 	}
 	memcpy(st->data + st->n * st->ssz, state, st->ssz);
-	st->parent[st->n] = parent; st->op[st->n] = op; st->depth[st->n] = (uint16_t)depth;
+	st->parent[st->n] = parent; st->op[st->n] = op; st->depth[st->n] = (uint32_t)depth;
 	return st->n++;
 }
 static void vx_store_get(vx_store *st, uint64_t i, void *out) { memcpy(out, st->data + i * st->ssz, st->ssz); }
@@ -454,16 +479,22 @@ static vx_bfs *vx_bfs_cur;
 /* replay text for the state being expanded + current op */
 static void vx_bfs_history(vx_bfs *b, vx_sb *hist, vx_sb *replay)
 {
-	static uint32_t ops[4096];
-	int n = vx_store_trace(&b->st, b->cur, ops, 4095);
+	int len = 0;				/* histories of any length: a truncated history cannot be replayed */
+	for (uint64_t j = b->cur; b->st.parent[j] != VX_NOPARENT; j = b->st.parent[j]) len++;
+	uint32_t *ops = malloc(sizeof(uint32_t) * ((size_t)len + 2));
+	if (!ops) { fprintf(stderr, "vx: out of memory (history)\n"); _exit(3); }
+	int n = vx_store_trace(&b->st, b->cur, ops, len + 1);
 	ops[n++] = (uint32_t)b->cur_op;
 	vx_sb_printf(replay, "config=%s\nops=", b->name ? b->name : "");
 	for (int i = 0; i < n; i++) {
 		vx_sb_printf(replay, "%s%u", i ? " " : "", ops[i]);
+		/* the readable form keeps the first and the last 40 operations of a long history; the replay text is complete */
+		if (n > 100 && i >= 40 && i < n - 40) { if (i == 40) vx_sb_printf(hist, "; ... (%d operations) ...", n - 80); continue; }
 		if (i) vx_sb_printf(hist, "; ");
 		b->describe((int)ops[i], hist);
 	}
 	vx_sb_printf(replay, "\n");
+	free(ops);
 }
 
 /* record a violation found while applying the current op of the current BFS */
@@ -481,14 +512,17 @@ static void vx_bfs_fail(const char *clause, const char *fmt, ...)
 
 static void vx_bfs_run(vx_bfs *b)
 {
-	uint8_t *save = malloc(b->size), *tmp = malloc(b->size);
+	/* a stored state = the live image followed by the image of the library's statics (empty without `lib=`) */
+	size_t lsz = vx_lib_size(), tot = b->size + lsz;
+	uint8_t *save = malloc(tot), *tmp = malloc(tot);
 	vx_hasher h;
 	vx_bfs_cur = b;
-	vx_store_init(&b->st, b->size);
+	vx_store_init(&b->st, tot);
 	vx_set_init(&b->seen, 16);
-	vx_h_init(&h); b->canon(&h); vx_set_add(&b->seen, vx_h_done(&h));
-	if (b->save) { b->save(save); vx_store_add(&b->st, save, VX_NOPARENT, 0, 0); }
-	else vx_store_add(&b->st, b->live, VX_NOPARENT, 0, 0);
+	vx_h_init(&h); b->canon(&h); vx_lib_hash(&h); vx_set_add(&b->seen, vx_h_done(&h));
+	if (b->save) b->save(save); else memcpy(save, b->live, b->size);
+	vx_lib_save(save + b->size);
+	vx_store_add(&b->st, save, VX_NOPARENT, 0, 0);
 	b->states = 1; b->transitions = 0; b->fixpoint = 0; b->capped = 0; b->depth_done = 0;
 	int last_depth = 0;
 	for (b->cur = 0; b->cur < b->st.n; b->cur++) {
@@ -501,16 +535,18 @@ static void vx_bfs_run(vx_bfs *b)
 		vx_store_get(&b->st, b->cur, save);
 		for (int op = 0; op < b->nops; op++) {
 			if (b->load) b->load(save); else memcpy(b->live, save, b->size);
+			vx_lib_restore(save + b->size);
 			if (!b->enabled(op)) { b->disabled++; continue; }
 			/* faults that cost a watchdog period each must not be retried thousands of times */
 			if (vx_too_many_violations() || vx_hangs_seen >= 3) { b->capped = 1; break; }
 			b->cur_op = op;
 			b->transitions++;
 			if (b->apply(op)) continue;
-			vx_h_init(&h); b->canon(&h);
+			vx_h_init(&h); b->canon(&h); vx_lib_hash(&h);
 			if (vx_set_add(&b->seen, vx_h_done(&h))) {
-				if (b->save) { b->save(tmp); vx_store_add(&b->st, tmp, (uint32_t)b->cur, (uint32_t)op, (unsigned)d + 1); }
-				else vx_store_add(&b->st, b->live, (uint32_t)b->cur, (uint32_t)op, (unsigned)d + 1);
+				if (b->save) b->save(tmp); else memcpy(tmp, b->live, b->size);
+				vx_lib_save(tmp + b->size);
+				vx_store_add(&b->st, tmp, (uint32_t)b->cur, (uint32_t)op, (unsigned)d + 1);
 				b->states++;
 				if (b->on_new) b->on_new(d + 1);
 			}
@@ -532,13 +568,14 @@ static int vx_bfs_replay(vx_bfs *b, const char *text)
 	vx_store_init(&b->st, 1);
 	vx_store_add(&b->st, "", VX_NOPARENT, 0, 0);
 	b->cur = 0;
+	unsigned dep = 0;
 	int pending = -1;	/* the last applied op is added to the store only when another one follows, so that
 				 * (cur, cur_op) name the same history as during the search (also for on_new probes) */
 	for (;;) {
 		while (*p == ' ') p++;
 		if (*p < '0' || *p > '9') break;
 		int op = (int)strtol(p, (char **)&p, 10);
-		if (pending >= 0) b->cur = vx_store_add(&b->st, "", (uint32_t)b->cur, (uint32_t)pending, 0);
+		if (pending >= 0) b->cur = vx_store_add(&b->st, "", (uint32_t)b->cur, (uint32_t)pending, ++dep);
 		if (op >= b->nops || !b->enabled(op)) { fprintf(stderr, "vx: replay diverged (op %d not enabled)\n", op); return -1; }
 		b->cur_op = op;
 		int r = b->apply(op);
